@@ -192,6 +192,9 @@ class World:
             return (regc, tuple(self.training), tuple(self.rg), tuple(self.grad), obs, pst,
                     tuple(tuple(sorted(a.items())) for a in self.attr))
 
+def _tup(x):
+    return tuple(_tup(y) for y in x) if isinstance(x, (list, tuple)) else x
+
 def make_world():
     return World()
 
@@ -199,6 +202,9 @@ def replay(case):
     if "seq" in case:
         with harness.quiet():
             return sequential_case(case)
+    if "tree" in case:
+        with harness.quiet():
+            return tree_case(dict(case, tree=tuple(map(_tup, case["tree"]))))
     w = World(); out = []
     for e in case["history"]:
         out = w.apply(tuple(e))
@@ -270,6 +276,65 @@ def sequential_case(case):
     if not all(m.training for m in mods): viol.append({"kind": "sequential:train-not-propagated", "detail": f"{names}"})
     return viol
 
+def tree_shapes(nmax):
+    """all rooted ORDERED trees with <= nmax nodes, as nested tuples of children"""
+    import functools
+    @functools.lru_cache(None)
+    def forests(n):          # ordered forests with exactly n nodes
+        if n == 0: return [()]
+        out = []
+        for k in range(1, n + 1):                       # size of the first tree
+            for first in trees(k):
+                for rest in forests(n - k):
+                    out.append((first,) + rest)
+        return out
+    @functools.lru_cache(None)
+    def trees(n):
+        return [f for f in forests(n - 1)]             # a tree = its forest of children
+    return [t for n in range(1, nmax + 1) for t in trees(n)]
+
+def tree_case(case):
+    """build the module tree by attribute assignment (children before or after the node's own parameter), then compare parameters() with
+    depth-first pre-order (own parameters, then submodules in registration order), num_params and mode propagation"""
+    sg = harness.load(); nn = sg.nn
+    shape, own_first, post_assign = case["tree"], case["own_first"], case["attach"]
+    counter = [0]; expected = []; allmods = []
+    def build(children):
+        m = nn.Module(); allmods.append(m)
+        counter[0] += 1
+        p = nn.Parameter(sg.Tensor(np.zeros(counter[0]), requires_grad=True))       # distinct size = identity tag
+        subs = []
+        if own_first:
+            m.w = p
+        if post_assign == "bottom_up":
+            built = [build(tuple(c)) for c in children]
+            for i, (cm, cexp) in enumerate(built): setattr(m, f"c{i}", cm)
+            subs = [e for _, e in built]
+        else:                                                # attach empty children first, fill them afterwards
+            built = []
+            for i, c in enumerate(children):
+                cm, cexp = build(tuple(c)); setattr(m, f"c{i}", cm); built.append((cm, cexp))
+            subs = [e for _, e in built]
+        if not own_first:
+            m.w = p
+        return m, [p.size] + [x for e in subs for x in e]
+    root, exp = build(tuple(shape))
+    viol = []
+    got = [p.size for p in root.parameters()]
+    if got != exp:
+        viol.append({"kind": "tree:parameter-order" if sorted(got) == sorted(exp) else "tree:parameters", "detail": f"tree {shape}: parameters() sizes {got}, depth-first registration order {exp}"})
+    if root.num_params() != sum(exp): viol.append({"kind": "tree:num_params", "detail": f"{root.num_params()} != {sum(exp)}"})
+    root.eval()
+    if any(m.training for m in allmods): viol.append({"kind": "tree:eval-not-propagated", "detail": f"tree {shape}"})
+    root.train()
+    if not all(m.training for m in allmods): viol.append({"kind": "tree:train-not-propagated", "detail": f"tree {shape}"})
+    root.freeze()
+    if any(p.requires_grad for p in root.parameters()): viol.append({"kind": "tree:freeze", "detail": f"tree {shape}"})
+    if root.num_params(trainable=True) != 0 or root.num_params(non_trainable=True) != sum(exp): viol.append({"kind": "tree:num_params", "detail": "trainable/frozen split after freeze"})
+    root.unfreeze()
+    if not all(p.requires_grad for p in root.parameters()): viol.append({"kind": "tree:unfreeze", "detail": f"tree {shape}"})
+    return viol
+
 def run(tier, seed):
     depth = 4 if tier == "quick" else 5
     res = explorer.explore(make_world, depth, time_budget=900 if tier == "thorough" else 100)
@@ -283,7 +348,12 @@ def run(tier, seed):
             nseq += 1
             for vv in sequential_case(c):
                 res.violations.append(dict(vv, case=c))
-    cov = {"states": res.states, "transitions": res.transitions, "traces_validated_against_impl": res.transitions + nseq,
+    trees = [{"tree": t, "own_first": of, "attach": at} for t in tree_shapes(5 if tier == "quick" else 6) for of in (True, False) for at in ("bottom_up", "top_down")]
+    with harness.quiet():
+        for c in trees:
+            for vv in tree_case(c):
+                res.violations.append(dict(vv, case=c))
+    cov = {"states": res.states, "transitions": res.transitions, "traces_validated_against_impl": res.transitions + nseq + len(trees), "tree_shapes": len(trees),
            "samples": res.samples + seqs[-2:], "exhaustive": res.complete, "depth": res.max_depth, "level_sizes": res.level_sizes,
            "pruned_violating_transitions": res.pruned, "sequential_programs": nseq,
            "rule": f"all histories up to depth {depth} over 3 Modules (m0>m1>m2 nesting only, so no cycles), 3 Parameters (one re-wrapping another's storage), attribute "
@@ -291,7 +361,7 @@ def run(tier, seed):
                    "zero_grad on any node, one backward through all trainable parameters; after every event, for every module as "
                    "root: parameters() identity list (each reachable once; order = registration order, slot-keeping or latest-"
                    "registration both accepted), num_params x3, training flags, requires_grad flags, gradient presence; plus all "
-                   f"{nseq} Sequentials of <= 3 layers over {{x*2, x+1, relu, Linear}} positional and OrderedDict, also with the same module instance in two positions and with post-construction edits "
+                   f"{nseq} Sequentials of <= 3 layers over {{x*2, x+1, relu, Linear}} positional and OrderedDict, every ordered tree shape with <= 5 modules (parameters() = depth-first pre-order, mode / freeze propagation), also with the same module instance in two positions and with post-construction edits "
                    "(replace the first stage by attribute assignment, the last by register_module, append a stage)"}
     return {"level": "model_checking", "violations": res.violations, "coverage": cov,
             "assumptions": ["cycles in the module graph are excluded", "whether zero_grad also clears a frozen parameter's stale gradient is left open",
